@@ -61,6 +61,10 @@ def systems(tier):
                 out.append(dict(fam='plano-hyperbolic', n=n, R=-30.0, frac=frac, hist=hist))
             out.append(dict(fam='elliptical-immersion', n=n, R=30.0, frac=frac, hist='direct'))
             out.append(dict(fam='elliptical-immersion', n=n, R=-30.0, frac=frac, hist='direct', fold=True))
+    # the same singlet in a dispersive glass, made stigmatic for one of the lens's wavelengths (primary or not)
+    for glass in ('N-BK7', 'SF11', ['abbe', 1.62, 36.4]):
+        for wd in (0.4861, 0.5876, 0.6563):
+            out.append(dict(fam='plano-hyperbolic', glass=glass, wd=wd, R=-30.0, frac=0.5, hist='direct'))
     for R in Rs:
         for na in (0.1, 0.4, 0.6):
             for med in ns_med:
@@ -140,7 +144,10 @@ def make(u):
         sp = LZ.spec([s1, s2], obj=LZ.INF, ap=('EPD', u['epd']), fields=(0.0,), waves=w)
         return sp, (0, 0, -d + q), edits, abs(R1)
     if fam == 'plano-hyperbolic':
-        n, R = u['n'], u['R']
+        glass = u.get('glass')
+        n, R = (LZ.ref_index(glass, u['wd']) if glass else u['n']), u['R']
+        if glass:
+            w = ((0.4861, False), (0.5876, True), (0.6563, False))
         f = R / (1 - n)
         # every height refracts (the asymptote is the critical angle); aperture menu as a fraction of |R|/sqrt(n^2-1)
         hmax = abs(R) / math.sqrt(n * n - 1)
@@ -150,7 +157,7 @@ def make(u):
         h = u['frac'] * hmax
         # centre thickness large enough for the rim of the (concave towards -z) exit face to stay behind the flat face
         ct = 2.0 + abs(h * h / (R * (1 + math.sqrt(1 + (n * n - 1) * h * h / (R * R)))))
-        surfs = [S('plane', mat=['ideal', n, 0.0], t=ct, stop=True), s2]
+        surfs = [S('plane', mat=glass if glass else ['ideal', n, 0.0], t=ct, stop=True), s2]
         sp = LZ.spec(surfs, obj=LZ.INF, ap=('EPD', 2 * h), fields=(0.0,), waves=w)
         return sp, (0, 0, ct + f), edits, f
     if fam == 'elliptical-immersion':
@@ -242,7 +249,7 @@ def run_unit(u):
     sp, img, edits, scale = make(u)
     o = LZ.build(sp)
     part.states += 1
-    w = 0.55
+    w = u.get('wd', 0.55)
     if edits:
         trace_fan(o, w)                        # use the lens before the edit (history)
         part.transitions += 1
@@ -252,7 +259,8 @@ def run_unit(u):
     rays = trace_fan(o, w)
     part.evals += 1
     part.transitions += 1
-    c = f"family={u['fam']},history={u.get('hist', 'direct')},medium={'air' if not u.get('med') else 'immersed'}"
+    c = f"family={u['fam']},history={u.get('hist', 'direct')},medium={'air' if not u.get('med') else 'immersed'}" + \
+        (',dispersive-glass' if u.get('glass') else '')
     x, y, opd = np.asarray(rays.x, float), np.asarray(rays.y, float), np.asarray(rays.opd, float)
     fin = np.isfinite(x) & np.isfinite(y) & np.isfinite(opd)
     if np.mean(fin) < 0.8:
